@@ -50,5 +50,6 @@ Definition mps_start_tc (r : rep) (period_start_us ref_ts : Z) : Z :=
 Definition mps_number (r : rep) (period_start_us ref_ts N : Z) : option (Z * Z * Z) :=
   let '(m0, s0, _) := get_segment_index r (mps_start_tc r period_start_us ref_ts) in
   let m := m0 + (N - r_start_number r) in
-  if nseg r <? m then None
+  if N <? r_start_number r then None       (* numbers count from the first segment of the Period *)
+  else if nseg r <? m then None
   else Some (m, - s0, r_start_time r + prefix r (m - 1) - s0).
